@@ -6,6 +6,7 @@ import DarkluaModel.C05.Compose
 import DarkluaModel.Shared.VisitorSoundHeapV
 import DarkluaModel.C05.Unrequired
 import DarkluaModel.C05.OneModule
+import DarkluaModel.C05.Leaf
 /-!
 # C05 — a bundle behaves like the program with its modules required normally: property theorems
 
@@ -597,7 +598,80 @@ theorem bundle_refines_of_leaf {N : NumOps} (ρ : ExtOracle N) (hρ : OracleFlat
       · cases h
       · exact h.symm
 
+/-- **The call-site leaf holds for a module whose own body requires nothing** (`C05/Leaf.lean`): at levels 0 and 1
+both calls time out; at level ≥ 2 either both caches hold a box (related contents, `Coupled`) or both are empty —
+then both sides allocate their temporaries (content-PINNED, so that they survive the bodies), the two copies of the
+body run at level − 2 from related states (`reflB`), both sides box the first result and store the box in their
+cache (two private writes in one step), which re-establishes the invariant with the new boxes. -/
+theorem leafSound_of_leaf_module (M a : String) (B : Block) (hB : NoRefB (D1 M) B)
+    (hac : bytesOf a ≠ bytesOf "cache") (hMv : M ≠ "v") (hMI : M ≠ implName)
+    (hMr : M ≠ "__ref_require" ∧ M ≠ "__ref_modules" ∧ M ≠ "__ref_loaded") : LeafSound M a B B :=
+  fun _ hq => leaf_sound M a B hB (fun h => hac h.symm) hMv hMI hMr hq
+
+/-- **`bundle_refines_one_module`** — UNCONDITIONAL: one bundled module `a` whose own source contains no resolved
+`require` (its bundled and reference bodies coincide) and mentions no reserved name, REQUIRED anywhere in an
+arbitrary entry source (top level, inside closures, loops, conditionals; any number of times, or never): the bundle
+and the program with the textbook `require` have the same outcome — same values, same trace, same error, or both
+out of budget — at every level ≥ 1, for every flat oracle. -/
+theorem bundle_refines_one_module {N : NumOps} (ρ : ExtOracle N) (hρ : OracleFlat ρ) (externs : List String)
+    (I : BundleInput) (a : String) (B : Block) (n : Nat)
+    (hmods : I.mods = [(a, B)])
+    (hres : ∀ lit nm, I.res lit = some nm → nm = a)
+    (hMv : I.M ≠ "v") (hMI : I.M ≠ implName)
+    (hMr : I.M ≠ "__ref_require" ∧ I.M ≠ "__ref_modules" ∧ I.M ≠ "__ref_loaded")
+    (hac : bytesOf a ≠ bytesOf "cache")
+    (hentry : NoRefB (D1 I.M) I.entry)
+    (hBeq : subB I.matcher true B = subB I.matcher false B)
+    (hBL : NoRefB (D1 I.M) (subB I.matcher true B)) :
+    runProgram ρ (n + 1) externs I.bundle = runProgram ρ (n + 1) externs I.reference :=
+  bundle_refines_of_leaf ρ hρ externs I a B n hmods hres hMv hMI hMr hac hentry
+    (by rw [← hBeq]; exact leafSound_of_leaf_module I.M a _ hBL hac hMv hMI hMr)
+
+/-- at the oracle the harness runs no hypothesis on the oracle is left -/
+theorem bundle_refines_one_module_driver (externs : List String) (I : BundleInput) (a : String) (B : Block) (n : Nat)
+    (hmods : I.mods = [(a, B)]) (hres : ∀ lit nm, I.res lit = some nm → nm = a)
+    (hMv : I.M ≠ "v") (hMI : I.M ≠ implName)
+    (hMr : I.M ≠ "__ref_require" ∧ I.M ≠ "__ref_modules" ∧ I.M ≠ "__ref_loaded")
+    (hac : bytesOf a ≠ bytesOf "cache") (hentry : NoRefB (D1 I.M) I.entry)
+    (hBeq : subB I.matcher true B = subB I.matcher false B) (hBL : NoRefB (D1 I.M) (subB I.matcher true B)) :
+    runProgram Shared.driverOracle (n + 1) externs I.bundle = runProgram Shared.driverOracle (n + 1) externs I.reference :=
+  bundle_refines_one_module _ driverOracle_flat externs I a B n hmods hres hMv hMI hMr hac hentry hBeq hBL
+
+-- non-vacuity: module `a` has an effectful body and returns a fresh table; the entry requires it at the top level,
+-- a second time inside a closure that is called later, and compares the two results
+def exOneModule : BundleInput :=
+  { M := "__DARKLUA_BUNDLE_MODULES",
+    res := fun lit => if lit = [46, 47, 97] then some "a" else none,
+    mods := [("a", .mk [.callStmt (.call (.var "emit") none .tuple [.str [97]])] (some (.ret [.table [.named "x" .true]])))],
+    entry := .mk
+      [ .localAssign .loc [.mk "m1" none] [.call (.var "require") none .tuple [.str [46, 47, 97]]],
+        .localAssign .loc [.mk "f" none]
+          [.fn (.mk [] false none none [] [] (.mk [] (some (.ret [.call (.var "require") none .tuple [.str [46, 47, 97]]]))))],
+        .callStmt (.call (.var "emit") none .tuple [.bin .eq (.var "m1") (.call (.var "f") none .tuple [])]) ]
+      (some (.ret [.field (.var "m1") "x"])) }
+
+example (ρ : ExtOracle natOps) (hρ : OracleFlat ρ) (n : Nat) (hac : bytesOf "a" ≠ bytesOf "cache") :
+    runProgram ρ (n + 1) ["emit"] exOneModule.bundle = runProgram ρ (n + 1) ["emit"] exOneModule.reference :=
+  bundle_refines_one_module ρ hρ _ exOneModule "a" _ n rfl
+    (by intro lit nm h; simp only [exOneModule] at h; split at h <;> simp_all)
+    (by decide) (by decide) (by decide) hac (NoRefB.ofBool (by decide)) (by rfl) (NoRefB.ofBool (by decide))
+
+-- the entry of the example really contains two rewritten call sites
+example : subB exOneModule.matcher true exOneModule.entry = .mk
+      [ .localAssign .loc [.mk "m1" none] [accessorCall "__DARKLUA_BUNDLE_MODULES" "a"],
+        .localAssign .loc [.mk "f" none]
+          [.fn (.mk [] false none none [] [] (.mk [] (some (.ret [accessorCall "__DARKLUA_BUNDLE_MODULES" "a"]))))],
+        .callStmt (.call (.var "emit") none .tuple [.bin .eq (.var "m1") (.call (.var "f") none .tuple [])]) ]
+      (some (.ret [.field (.var "m1") "x"])) ∧
+    subB exOneModule.matcher false exOneModule.entry = .mk
+      [ .localAssign .loc [.mk "m1" none] [refCall "a"],
+        .localAssign .loc [.mk "f" none]
+          [.fn (.mk [] false none none [] [] (.mk [] (some (.ret [refCall "a"]))))],
+        .callStmt (.call (.var "emit") none .tuple [.bin .eq (.var "m1") (.call (.var "f") none .tuple [])]) ]
+      (some (.ret [.field (.var "m1") "x"])) := ⟨rfl, rfl⟩
+
 end onemodule
+
 
 /-- **`bundle_refines_partial`** (one module): the statements the bundler puts in front of the entry
 execute to exactly this: the entry's scope gains the modules identifier `M` and nothing else (no
